@@ -73,7 +73,24 @@ def check(chk):
     chk.judge('self._results_queue.append((idx, ExecutionResult(success, result)))' in src(lst), 'C32.index', lst, 'list results stored as (idx, ExecutionResult)', 'stored tuple changed')
     chk.judge('heappush(self._results_queue, (idx, ExecutionResult(success, result)))' in src(gen), 'C32.index', gen, 'generator results heap-ordered by idx', 'heap entry changed')
     lr = m.func('ConcurrentExecutorListResults._results')
-    chk.judge('[r[1] for r in sorted(self._results_queue)]' in src(lr), 'C32.index', lr, 'list results returned sorted by idx', 'result order changed')
+    def _sorted_projection(fn):
+        # every returned list is [x[1] for x in <sorted(self._results_queue)>], the sorted list possibly held in a temporary
+        rets_ = [r for r in body_walk(fn) if isinstance(r, ast.Return) and r.value is not None]
+        if not rets_:
+            return False
+        for r in rets_:
+            v = r.value
+            if not (isinstance(v, ast.ListComp) and len(v.generators) == 1 and not v.generators[0].ifs and isinstance(v.generators[0].target, ast.Name)):
+                return False
+            var = v.generators[0].target.id
+            it_ = v.generators[0].iter
+            if isinstance(it_, ast.Name):
+                ds = [st for st in body_walk(fn) if isinstance(st, ast.Assign) and len(st.targets) == 1 and src(st.targets[0]) == it_.id]
+                it_ = ds[0].value if len(ds) == 1 else it_
+            if src(v.elt) != '%s[1]' % var or src(it_) != 'sorted(self._results_queue)':
+                return False
+        return True
+    chk.judge(_sorted_projection(lr), 'C32.index', lr, 'list results returned sorted by idx', 'result order changed')
     gr = m.func('ConcurrentExecutorGenResults._results')
     chk.judge('self._results_queue[0][0] != self._current' in src(gr) and 'self._current += 1' in src(gr), 'C32.index', gr, 'generator yields result number _current next', 'generator order changed')
 
@@ -113,7 +130,13 @@ def check(chk):
         chk.judge(ok, 'C32.atomic', f, '%s: publish and start-next in one critical section' % qual_of(f),
                   'the result is published and the condition released before the next statement is counted: a consumer that runs in the gap sees _current == _exec_count and stops although statements remain (results are lost)')
     # fail fast
-    chk.judge('if self._exception and self._fail_fast' in src(lr) and src(lr).count('raise self._exception') == 2, 'C32.failfast', lr, 'list results: stored exception raised (also without waiting)', 'fail-fast raise missing')
+    glr = CFG(lr)
+    fllr = Flow(glr, 0, lambda n, c: c)
+    raises_ = [n for n in glr.nodes if n.kind == 'raise_stmt' and src(n.ast.exc) == 'self._exception']
+    okff = len(raises_) == 2 and all(fa.knows('self._exception') is True and fa.knows('self._fail_fast') is True for n in raises_ for fa, _c in fllr.at(n))
+    rets_lr = [n for n in glr.stmt_nodes() if n.kind == 'return']
+    okff = okff and bool(rets_lr) and all(fa.knows('self._exception') is False or fa.knows('self._fail_fast') is False for n in rets_lr for fa, _c in fllr.at(n))
+    chk.judge(okff, 'C32.failfast', lr, 'list results: stored exception raised (also without waiting)', 'fail-fast raise missing')
     chk.judge('if self._fail_fast and (not res[0])' in src(gr) and 'raise res[1]' in src(gr), 'C32.failfast', gr, 'generator results: failed result raised when fail_fast', 'fail-fast raise missing')
     g = CFG(lst)
     fl = Flow(g, 0, lambda n, c: c)
